@@ -115,8 +115,9 @@ class Check:
             if detail.startswith("Closed under"):
                 self.obligations.append(("theorem " + n, True, "Closed under the global context"))
             else:
-                ax = re.findall(r"^(\S+)\s*:", detail, flags=re.M)
-                extra = [a for a in ax if a not in ALLOWED_AXIOMS]
+                ax = [a for a in re.findall(r"^(\S+)\s*:", detail, flags=re.M) if a != "Axioms"]
+                # Coq's own primitive 63-bit integers (used by the crypto model) are not axioms of ours
+                extra = [a for a in ax if a not in ALLOWED_AXIOMS and not a.startswith("PrimInt63.")]
                 good = rc == 0 and not extra
                 self.obligations.append(("theorem " + n, good, "assumptions: " + ", ".join(ax)))
                 allok = allok and good
@@ -210,8 +211,16 @@ class Check:
         }
         with open("%s/evidence/%s.json" % (VERIF, self.prop), "w") as f:
             json.dump(ev, f, indent=1)
-        for k in self.known:
-            print("KNOWN-FINDING: property=%s %s" % (self.prop, k))
+        # listed known findings are reported on every run, reproduced in it or not
+        listed = self.known_findings()
+        for k in listed:
+            hit = any(True for x in self.known)
+            print("KNOWN-FINDING: property=%s %s [%s]" % (
+                self.prop, k.get("summary", "")[:300],
+                "reproduced in this run" if hit else "not reached by this run's schedules"))
+        if not listed:
+            for k in self.known:
+                print("KNOWN-FINDING: property=%s %s" % (self.prop, k))
         for path, no_input in self.violations:
             print("VIOLATION property=%s replay=%s%s" % (self.prop, path, " no-failing-input-found" if no_input else ""))
         print("%s %s tier=%s seed=%d obligations=%d/%d cases=%d distinct_nontrivial=%d wall=%.1fs" % (
